@@ -109,6 +109,24 @@ def handle : Handler
       | .error e => some (showErr e)
       | .ok s => some s!"ok {optMat s.probs} {optMat s.probsRow} {optMat s.probsCol} {optMat s.aggregate}")
         "bad-args"
+  | "c05.aggregate_graph", [n, m, ip, ix, dt, l, lr, lc] => some <| Option.getD (do
+      let c ← csrRat? n m ip ix dt
+      match aggregateGraph (spOf c) c.nCol (← optIntList? l) (← optIntList? lr) (← optIntList? lc) with
+      | .error e => some (showErr e)
+      | .ok (kr, kc, g) => some s!"ok {kr} {kc} {showMat g}") "bad-args"
+  | "c05.spec_aggregate_graph", [n, m, ip, ix, dt, lr, lc, kr, kc, g, tol] => some <| Option.getD (do
+      let tol ← rat? tol
+      let c ← csrRat? n m ip ix dt
+      let a := spOf c
+      let lr ← intList? lr
+      let lc ← intList? lc
+      let kr ← kr.toNat?
+      let kc ← kc.toNat?
+      let g ← ratListList? g
+      let shape := g.length == kr && g.all (·.length == kc)
+      let entries := (List.range kr).all fun x => (List.range kc).all fun y =>
+        decide (absR ((g.getD x []).getD y 0 - aggEntryInt a lr lc x y) ≤ tol)
+      some (verdict (shape && entries) s!"shape={shape} entries={entries}")) "bad-args"
   | "c05.kcenters", [nc, ni, bip, nRow, nCol, pos, cs, ls, im] => some <| Option.getD (do
       let cs ← natListList? cs
       let ls ← natListList? ls
